@@ -20,6 +20,7 @@ type PropConfig struct {
 	Specs     []string `json:"specs"`     // external spec files (relative to /verif)
 	Functions []string `json:"functions"` // canonical names (module prefix may be omitted)
 	Lemmas    []string `json:"lemmas"`
+	Sweep     []string `json:"sweep"` // functions checked without a contract: safety obligations only
 	Scope     string   `json:"scope"`      // what the contracts carry
 	NotCovered []string `json:"not_covered"`
 	Trusted   []string `json:"trusted_base"`
@@ -166,6 +167,27 @@ func loadBaseline(id string) map[string]bool {
 // baseline was taken, a failed obligation of that function is first of all a contract
 // that needs re-anchoring or a callee that needs a contract: undecided, not an alarm
 // (a failed proof is a violation only when the code, not the annotation, moved).
+// safetyOnly keeps the obligations of a function checked without a contract:
+// index and slice bounds, division by zero, writes to a nil map, explicit
+// panics, and the preconditions of contracted callees. Frame conditions and
+// covers mean nothing without a contract.
+func safetyOnly(obls []*Obligation) []*Obligation {
+	var out []*Obligation
+	for _, o := range obls {
+		if o.Cover {
+			continue
+		}
+		switch o.Kind {
+		case "bounds", "div", "nil", "panic", "pre":
+			if strings.Contains(o.Name, "varargs") {
+				continue // the argument array of a variadic call: trivially in range
+			}
+			out = append(out, o)
+		}
+	}
+	return out
+}
+
 func shapeOf(enc *fnEnc) (loops int, uncontracted []string) {
 	loops = len(enc.loops)
 	for a := range enc.assumptions {
@@ -338,7 +360,11 @@ func runCheck(id, tier string, seed int, repo string, overlay map[string][]byte,
 	shapesBase := loadShapes(id)
 	shapesNow := map[string]string{}
 	shapeChanged := map[string]string{}
-	for _, f := range cfg.Functions {
+	sweepFn := map[string]bool{}
+	for _, f := range cfg.Sweep {
+		sweepFn[fullFuncName(f)] = true
+	}
+	for _, f := range append(append([]string{}, cfg.Functions...), cfg.Sweep...) {
 		name := fullFuncName(f)
 		fnames = append(fnames, name)
 		if eng.funcs[name] == nil {
@@ -357,7 +383,7 @@ func runCheck(id, tier string, seed int, repo string, overlay map[string][]byte,
 				continue
 			}
 		}
-		if c := eng.contracts[name]; c == nil {
+		if c := eng.contracts[name]; c == nil && !sweepFn[name] {
 			undecided = append(undecided, "no contract for "+f)
 			fmt.Fprintf(w, "UNDECIDED no-contract function=%s\n", f)
 			continue
@@ -369,7 +395,14 @@ func runCheck(id, tier string, seed int, repo string, overlay map[string][]byte,
 			continue
 		}
 		encs[name] = enc
-		obls = append(obls, enc.obls...)
+		if sweepFn[name] {
+			// safety sweep: the function has no contract; only what must hold for
+			// it not to crash is an obligation (and the preconditions of the
+			// contracted functions it calls)
+			obls = append(obls, safetyOnly(enc.obls)...)
+		} else {
+			obls = append(obls, enc.obls...)
+		}
 		{
 			l, u := shapeOf(enc)
 			shapesNow[name] = shapeString(l, u)
@@ -719,6 +752,11 @@ func writeFuncEvidence(cfg *PropConfig, encs map[string]*fnEnc, fnames []string,
 	assume := map[string]bool{}
 	for _, n := range fnames {
 		st := "V (verified against its body)"
+		for _, f := range cfg.Sweep {
+			if fullFuncName(f) == n {
+				st = "S (safety sweep against its body, no contract: index/slice bounds, division, nil map, explicit panic, callee preconditions)"
+			}
+		}
 		if encs[n] == nil {
 			st = "undecided (not encoded on this run)"
 		} else {
